@@ -44,13 +44,14 @@ class Clock:
 
 
 class FakeSocket:
-    def __init__(self, reads=(), pending_bytes=None, fail_send_at=None, send_exc=None, tls=False):
+    def __init__(self, reads=(), pending_bytes=None, fail_send_at=None, send_exc=None, tls=False, fail_after_bytes_left=False):
         self.reads = list(reads)      # items: bytes (a read), b'' (EOF), or an Exception instance
         self.out = []
         self.ops = []
         self.closed = False
         self.shut = False
         self.fail_send_at = fail_send_at
+        self.fail_after_bytes_left = fail_after_bytes_left      # the faulty sendall delivers its bytes and THEN raises (e.g. a timeout)
         self.send_exc = send_exc or OSError(104, 'Connection reset by peer')
         self.nsend = 0
         self.blocked_wait = 0
@@ -63,6 +64,8 @@ class FakeSocket:
         k = self.nsend
         self.nsend += 1
         if self.fail_send_at is not None and k == self.fail_send_at:
+            if self.fail_after_bytes_left:
+                self.out.append(bytes(d))
             raise self.send_exc
         if self.closed:
             raise OSError(9, 'Bad file descriptor')
@@ -153,6 +156,17 @@ class FakeSelector(SelectorBase):
                 rest = nxt[1] - timeout
                 if rest > 0:
                     s.reads.insert(0, ('idle', rest))
+                return False
+            if isinstance(nxt, tuple) and nxt[0] == 'after':
+                # ('after', seconds, data): `data` becomes readable after that long - a peer that trickles bytes
+                if nxt[1] <= timeout:
+                    if self.clock:
+                        self.clock.t += nxt[1]
+                    s.reads[0] = nxt[2]
+                    return True
+                if self.clock:
+                    self.clock.t += timeout
+                s.reads[0] = ('after', nxt[1] - timeout, nxt[2])
                 return False
             return True
         s.blocked_wait += 1
